@@ -450,14 +450,22 @@ func (g *Gen) convert(st *State, x *ssa.Convert) {
 			g.setVal(x, wrapTo(v, to))
 		}
 	case fok && tok && fb.Info()&types.IsInteger != 0 && tb.Info()&types.IsFloat != 0:
+		sfx := ""
+		if g.ct != nil && g.ct.FloatAbs {
+			sfx = "_u"
+		}
 		if _, signed, _ := intBits(from); signed {
-			g.setVal(x, fmt.Sprintf("(i2f %s)", v))
+			g.setVal(x, fmt.Sprintf("(i2f%s %s)", sfx, v))
 		} else {
-			g.setVal(x, fmt.Sprintf("(u2f %s)", v))
+			g.setVal(x, fmt.Sprintf("(u2f%s %s)", sfx, v))
 		}
 	case fok && tok && fb.Info()&types.IsFloat != 0 && tb.Info()&types.IsInteger != 0:
 		n := g.freshOf("f2i", to)
-		g.sc.emit("(assert (= %s (f2u %s)))", n, v)
+		if g.ct != nil && g.ct.FloatAbs {
+			g.sc.emit("(assert (= %s (f2u_u %s)))", n, v)
+		} else {
+			g.sc.emit("(assert (= %s (f2u %s)))", n, v)
+		}
 		g.val[x] = n
 	case fok && tok && fb.Info()&types.IsFloat != 0 && tb.Info()&types.IsFloat != 0:
 		g.setVal(x, v)
@@ -546,6 +554,9 @@ func (g *Gen) binop(st *State, x *ssa.BinOp) {
 		op := map[token.Token]string{token.LSS: "<", token.LEQ: "<=", token.GTR: ">", token.GEQ: ">="}[x.Op]
 		if isFloat {
 			op = map[token.Token]string{token.LSS: "fp.lt", token.LEQ: "fp.leq", token.GTR: "fp.gt", token.GEQ: "fp.geq"}[x.Op]
+			if g.ct != nil && g.ct.FloatAbs {
+				op = map[token.Token]string{token.LSS: "flt_u", token.LEQ: "fleq_u", token.GTR: "fgt_u", token.GEQ: "fgeq_u"}[x.Op]
+			}
 		}
 		if isStr {
 			g.val[x] = g.sc.fresh("strcmp", "Bool")
@@ -560,6 +571,11 @@ func (g *Gen) binop(st *State, x *ssa.BinOp) {
 			return
 		}
 		if isFloat {
+			if g.ct != nil && g.ct.FloatAbs {
+				op := map[token.Token]string{token.ADD: "fadd_u", token.SUB: "fsub_u", token.MUL: "fmul_u"}[x.Op]
+				g.setVal(x, fmt.Sprintf("(%s %s %s)", op, a, b))
+				return
+			}
 			op := map[token.Token]string{token.ADD: "fp.add", token.SUB: "fp.sub", token.MUL: "fp.mul"}[x.Op]
 			g.setVal(x, fmt.Sprintf("(%s RNE %s %s)", op, a, b))
 			return
